@@ -505,7 +505,7 @@ def oracle_names_current(real: Real, part, hist_id, step):
 def real_facts(real: Real) -> dict:
     """DevOK / Named evaluated on the real objects (independent of the model)."""
     devok = True
-    named = True
+    named = all_named(real)
     for n in real.nodes:
         io = {id(x) for x in list(n.inputs) + list(n.outputs) if x is not None}
         seen_cfg = set()
@@ -524,8 +524,6 @@ def real_facts(real: Real) -> dict:
                     devok = False
                     continue
                 seen_val.add(id(v))
-                if not v.name:
-                    named = False
                 r = _rank(v)
                 axes = []
                 for d in s.sharded_dims:
